@@ -421,7 +421,7 @@ func TestC14(t *testing.T) {
 	}, max, false)
 	// the racing-creator cells once more end to end over the DynamoDB plug-ins: "whichever of them wins each insert"
 	// is then decided by the plug-in's conditional put
-	for _, be := range []string{"dynamodb-v1", "dynamodb-v2"} {
+	for _, be := range []string{"dynamodb-v1", "dynamodb-v2", "sql"} {
 		schedBackend = be
 		exploreSchedules(t, r, "C14", func(c schedCell) bool {
 			return c.sample == 0 && c.nproc == 2 && (c.name == "cold" || c.name == "both-expired" || c.name == "ik-revoked" || ev.Thorough())
